@@ -209,7 +209,7 @@ type c13xCase struct {
 	Batch int      `json:"batch,omitempty"` // batch size (create via inbatches/session/config, find via batches)
 	Sel   string   `json:"sel,omitempty"`   // "", select:name,tag  omit:tag  select:*  omit:assoc  select:Kids select:assoc | firstorcreate: attrs assign | find: preload:Kids preload:Boss preload:assoc
 	Assoc string   `json:"assoc,omitempty"` // in-memory associations of the records written: "", kids, boss, both
-	Ctx   string   `json:"ctx,omitempty"`   // "" (default transaction), usertx, skipdefault, prepare
+	Ctx   string   `json:"ctx,omitempty"`   // "" (default transaction), usertx, skipdefault, prepare, nested, prepare-session
 	Skip  string   `json:"skip,omitempty"`  // "", session, updatecolumn, updatecolumns
 	// fault: a hook invocation that returns an error, or the k-th (1-based) write statement failing at the driver
 	FailAt   string `json:"fail_at,omitempty"`
@@ -509,8 +509,11 @@ func c13xRun(c c13xCase) c13xObs {
 		rec.mu.Unlock()
 	}
 	h := db
+	if c.Ctx == "prepare-session" {
+		h = db.Session(&gorm.Session{PrepareStmt: true}) // prepared statements per session, not per config
+	}
 	if c.Skip == "session" {
-		h = db.Session(&gorm.Session{SkipHooks: true})
+		h = h.Session(&gorm.Session{SkipHooks: true})
 	}
 	var res *gorm.DB
 	if c.Ctx == "nested" {
